@@ -123,6 +123,25 @@ if not getattr(AddDelete.add, '_vp', False):
     _vp_add._vp = True; AddDelete.add = _vp_add; _Process.addEdge = _vp_addEdge
 
 
+LABELS = {}        # label of the real network -> the integer the model uses (order-preserving); empty = labels are the integers themselves
+
+
+def L(x):
+    if isinstance(x, tuple): return tuple(L(y) for y in x)
+    return LABELS.get(x, x)
+
+
+def lab_of(case):
+    """nodes may be labelled with strings whose order is that of the integers they stand for"""
+    if case.get('strlabels'): return lambda n: f"n{n:03d}"
+    return lambda n: n
+
+
+def mkgen(case, edges=None):
+    f = lab_of(case)
+    return Gen([f(n) for n in case['nodes']], [(f(a), f(b)) for (a, b) in (case['edges'] if edges is None else edges)])
+
+
 class Gen(NetworkGenerator):
     def __init__(self, nodes, edges):
         super().__init__(); self._nodes = nodes; self._edges = edges
@@ -391,25 +410,25 @@ def state_line(d, ex):
     for p in ex.cms:
         ci = ex.cidx[id(p)]
         comps.append(' '.join(str(ci[c]) if (c := g.nodes[n].get(p.COMPARTMENT)) is not None else '-' for n in g.nodes()))
-    loci = ' '.join('{' + ', '.join(str(x) for x in l) + '}' for l in d.loci().values())
+    loci = ' '.join('{' + ', '.join(str(L(x)) for x in l) + '}' for l in d.loci().values())
     pend = ' '.join(f"{i}:{bits(t)}" for (t, i) in sorted((ev[0], i) for i, ev in d._postedEventFinder.items()))
     occ = []
     for i, p in enumerate(ex.cms):
         for (a, b, data) in g.edges(data=True):
-            if data.get(p.OCCUPIED, False): occ.append((i, min(a, b), max(a, b)))
+            if data.get(p.OCCUPIED, False): occ.append((i, min(L(a), L(b)), max(L(a), L(b))))
     occs = ' '.join(f"{i}:{a}-{b}" for (i, a, b) in sorted(occ))
-    tocc = sorted((min(a, b), max(a, b), data['tOccupied']) for (a, b, data) in g.edges(data=True) if 'tOccupied' in data)
+    tocc = sorted((min(L(a), L(b)), max(L(a), L(b)), data['tOccupied']) for (a, b, data) in g.edges(data=True) if 'tOccupied' in data)
     toccs = ' '.join(f"{a}-{b}@{bits(t)}" for (a, b, t) in tocc)
     names = {p.instanceName(): i for i, p in enumerate(ex.cms) if p.instanceName() is not None}
     hit = []
     for n in sorted(g.nodes()):
         if 'tHitting' in g.nodes[n]:
-            s = f"{n}@{bits(g.nodes[n]['tHitting'])}"
+            s = f"{L(n)}@{bits(g.nodes[n]['tHitting'])}"
             if 'hittingProcess' in g.nodes[n]: s += f"/{names[g.nodes[n]['hittingProcess']]}"
             hit.append(s)
-    nodes = ' '.join(map(str, g.nodes()))
-    adj = ' '.join(f"{n}:" + ','.join(map(str, g.adj[n])) for n in g.nodes())
-    vac = [f"{n}@{bits(g.nodes[n].get('vaccination_time', 0.0))}" for n in sorted(g.nodes()) if g.nodes[n].get('vaccincated')]
+    nodes = ' '.join(str(L(n)) for n in g.nodes())
+    adj = ' '.join(f"{L(n)}:" + ','.join(str(L(m)) for m in g.adj[n]) for n in g.nodes())
+    vac = [f"{L(n)}@{bits(g.nodes[n].get('vaccination_time', 0.0))}" for n in sorted(g.nodes()) if g.nodes[n].get('vaccincated')]
     return (f"nodes=[{nodes}] adj=[{adj}] comp=[{' | '.join(comps)}] loci=[{loci}] pend=[{pend}] occ=[{occs}] "
             f"tocc=[{toccs}] hit=[{' '.join(hit)}]" + (f" vacc=[{' '.join(vac)}]" if vac else ""))
 
@@ -481,7 +500,7 @@ def fresh_twin(case, values, snap):
     class D2(Dyn):
         def simulationStarted(self, params):
             got['snap'] = snapshot(self); raise Stop()
-    d2 = D2(top, FixedNetwork(Gen(case['nodes'], case['edges'])._generate({})) if case.get('fixed_proto') else Gen(case['nodes'], case['edges']))
+    d2 = D2(top, FixedNetwork(mkgen(case)._generate({})) if case.get('fixed_proto') else mkgen(case))
     try:
         d2.set(case['params']).run(fatal=True)
     except Stop:
@@ -583,7 +602,7 @@ def run_case(case):
             ex = st['ex']
             key = ex.hnames[ex.hid(cur['ef'])]
             kind = ex.hkind.get(key, 'N')
-            es = 'None' if e is None else str(e)
+            es = 'None' if e is None else str(L(e))
             log = []
             for q in ex.leaves:
                 if isinstance(q, ScriptProc):
@@ -677,7 +696,8 @@ def run_case(case):
             elif r != ref[id][0]: qviol(f"pendingEventTime({id}) returned {r}, the event is due at {ref[id][0]}")
             return r
 
-    gen0 = Gen(case['nodes'], case['edges'])
+    LABELS.clear(); LABELS.update({lab_of(case)(n): n for n in case['nodes']} if case.get('strlabels') else {})
+    gen0 = mkgen(case)
     d = D(top, gen0)
     if case.get('preattr') is not None:
         # the network handed to the experiment already carries this model's state attributes (e.g. the residual network of an earlier run)
@@ -789,7 +809,7 @@ def run_case(case):
         st['inject'] = ep.get('inject'); st['nev'] = 0
         top.setMaximumTime(ep.get('maxT', case['maxT']))
         pp = dict(case['params']); pp.update(ep.get('params', {}))
-        gen0._edges = [tuple(e) for e in ep['edges']] if ep.get('edges') is not None else case['edges']     # (same generator object throughout)
+        gen0._edges = mkgen(case, [tuple(e) for e in ep['edges']])._edges if ep.get('edges') is not None else mkgen(case)._edges     # (same generator object throughout)
         try:
             d.set(pp).run(fatal=True)
             info['hist_done'] = info.get('hist_done', 0) + 1
@@ -810,10 +830,10 @@ def run_case(case):
         st['inject'] = None
         top.setMaximumTime(case['maxT'])
         if case.get('fixed_proto'):
-            proto = Gen(case['nodes'], case['edges'])._generate({})
+            proto = mkgen(case)._generate({})
             protos.append(proto); d.setNetworkGenerator(FixedNetwork(proto))
         else:
-            gen0._edges = case['edges']
+            gen0._edges = mkgen(case)._edges
         st['fresh_check'] = True
     try:
         rc = d.set(case['params']).run(fatal=True)
@@ -849,7 +869,7 @@ def run_case(case):
             info['oracle'].append(('clock', f"an event was delivered to the tap at {info['tmax']}, after the reported end time {md[Dynamics.TIME]}"))
         if st.get('fresh_check'):
             for proto in protos:
-                want = Gen(case['nodes'], case['edges'])._generate({})
+                want = mkgen(case)._generate({})
                 if list(proto.nodes(data=True)) != list(want.nodes(data=True)) or [(a, b, dict(dd)) for a, b, dd in proto.edges(data=True)] != [(a, b, dict(dd)) for a, b, dd in want.edges(data=True)]:
                     info['oracle'].append(('fresh', "the prototype network of the fixed-network generator was modified by a run"))
                 if d.network() is proto: info['oracle'].append(('fresh', "the run worked on the prototype itself, not on a copy"))
